@@ -1,7 +1,7 @@
 --------------------------------- MODULE Trace_C16 ---------------------------------
 (* code -> spec for C16.  Every row of the ndjson file is one history recorded from the  *)
 (* real library on inputs TLC did not choose: {spec, hist, obs}, hist = the new / feed /  *)
-(* fin events performed on ONE real Group spec object (longer item sequences, random      *)
+(* fault / fin events performed on ONE real Group spec object (longer item sequences, random      *)
 (* nesting and re-use), obs = the result of every evaluation in order of its start.       *)
 (* The machine of GlomGroup is stepped through the recorded events, one TLC state per     *)
 (* event, with the same NewEvaluation / Feed / Finish actions the model checker explores; *)
@@ -26,6 +26,7 @@ Event == /\ pos >= 1 /\ pos <= Len(Rows[row].hist)
          /\ LET a == Rows[row].hist[pos] IN
             \/ a.a = "new" /\ NewEvaluation
             \/ a.a = "feed" /\ Feed(a.x)
+            \/ a.a = "fault" /\ Fault
             \/ a.a = "fin" /\ Finish
          /\ pos' = pos + 1 /\ UNCHANGED <<spec, row>>
 Close == /\ pos >= 1 /\ pos = Len(Rows[row].hist) + 1
